@@ -77,6 +77,28 @@ opaque object ("<T>.__iter__"); `[]` where an opaque type of dynamic values is e
 Fun.calls: renderings that hold in one function only; Fun.forwards_varargs: `*args, **kwargs` that are only handed on to one callee
 rendered as a primitive on the object's state (_forwards_only); in the iterable of a for loop, `X.attr` rendered by Module.consts does
 not count as a use of X.
+HEAP MODE (Module.heap = Heap(var, ty, {class: HeapClass}), for mutable objects with IDENTITY that are referred to from several
+places, e.g. the nodes of a doubly linked list): a value of a declared class has the type ("ref", Cls) — a reference (an id) into a
+heap; None is `option` of it.  A function that CHANGES objects lists the heap in its state as ("<heap>", var, ty): it is threaded
+like method-mode state and returned on exceptions too; a function that only READS objects takes it as a ghost parameter and returns
+`result`.  `x.attr` on a reference-typed expression is `getter heap x : result T`, `x.attr = e` is `setter heap x v : result heap`
+(e, then x, then the store; both spec-named primitives defined from the model's own heap functions; on an Optional reference first
+tr_unwrap: AttributeError = OtherError); a @property of the class is the call of its translated getter / setter (find_def:
+"Cls.name@getter" / "Cls.name@setter"); `Cls(args)` is HeapClass.alloc (the model's fresh allocation) followed by the translated
+__init__ (emitted as the definition HeapClass.new; every field must be assigned at top level of __init__); `a is b` / `a is not b`
+on references is id equality (eqb / opt_eqb); a reference is truthy (the class may define neither __bool__ nor __len__: checked), and
+`if x:` / `while x:` / `x is None` on an Optional reference held in a variable narrow it (_narrow, _while).
+Call.substate: a call of a function that runs on PART of the caller's state (the heap alone; the attributes of an object held in an
+attribute, e.g. the LinkedList inside an OrderedSet) may stand inside an expression, as a statement, or after `return` (StM prelude
+entries in evaluation order; in a function whose heap is state every read of a state attribute is captured at its place in that
+order, LetM); ghost parameters of the callee are handed on; Heap.assume: an Optional reference passed where a reference is expected
+ends in OutOfFuel on None.  Callable values (type ("fun", args, ret, state)): a bound method / function that the spec renders with
+`substate`, or a lambda over single-assignment locals, passed as an argument and called through the parameter (_fun_value).
+`yield from X` (X a list-rendered generator or a generator expression); keyword-only parameters with defaults that are declared
+locals; `k in X` by the source text "in X" (a translated __contains__); `==` on an opaque type by "<T>.__eq__"; `del self.attr[k]`
+("<T>.__delitem__"); in _try: `except Exception` (every kind but OutOfFuel) and a bare `raise` in the handler.
+Still rejected in heap mode: `==` / hashing / ordering of objects, attributes that are not declared, inheritance, class attributes,
+objects stored where the spec gives no reference type, a generator that changes the heap.
 """
 import ast
 import os
@@ -112,7 +134,18 @@ def ty_coq(t):
         # a dict with str keys as an association list in insertion order: only `{}`, d[k] = v (tr_dict_set) and
         # the methods the spec renders ("<dict>.get" -> tr_dict_get) are translated; iteration is not
         return "(list (str * %s))" % ty_coq(t[2])
+    if k == "fun" and len(t) == 4:
+        # ("fun", (argument types…), result type, ((state variable, type)…)): a CALLABLE VALUE (bound method, lambda) that
+        # runs on and changes the state of the function it is used in — which must be exactly that state (FunTr._fun_value)
+        sts = [ty_coq(x) for _, x in t[3]]
+        return "(%s -> mres %s (%s)%%type)" % (" -> ".join(sts + [ty_coq(x) for x in t[1]]), ty_coq(t[2]), " * ".join(sts))
+    if k == "ref" and len(t) == 2 and _HEAP is not None and t[1] in _HEAP.classes:
+        # HEAP MODE: a value of a declared object class is a reference into the heap (Heap/HeapClass below)
+        return _HEAP.classes[t[1]].coq
     _bad("type %r" % (t,))
+
+
+_HEAP = None        # Module.heap of the module being translated (set by translate_module for its duration)
 
 
 def _bad(msg, node=None):
@@ -184,6 +217,14 @@ class Call:
     # before it does anything else observable (str.join does).  Enables `f(.., map(F, L))` with an F that may raise
     # (FunTr._arg): the lazy map object is then evaluated at once, as a list.
     exhausts = False
+    # substate (set after construction, METHOD MODE / HEAP MODE): a list of STATE VARIABLE NAMES of the caller, e.g.
+    # ["hp"] or ["hp", "s_head", "s_tail", "s_size"] — the callee (a function translated in the same module in method
+    # mode with exactly these state variables, names and types, or a hand-written primitive with that calling convention)
+    # runs on and changes THAT PART of the caller's state: `coq <substate variables…> <args…> : mres ret (substate tuple)`;
+    # the rest of the caller's state is untouched; an exception propagates with the state reached.  Unlike selfmethod,
+    # the call may stand inside an expression (a prelude entry StM, rendered by swrap in evaluation order); every
+    # argument must be given positionally.  (FunTr._sub_call)
+    substate = None
 
     def __init__(self, coq, args, ret, monadic=False, mutates=False):
         self.coq, self.args, self.ret, self.monadic = coq, list(args), ret, monadic
@@ -247,6 +288,8 @@ class Module:
     # is checked in the source): a read `self.<name>` is the call of the getter, rendered through `calls` under the key
     # "Cls.<name>" (no arguments; typically the translated getter with the object's state passed by name).
     properties = {}
+    # heap: a Heap (below) — HEAP MODE: values of the declared classes are references into a heap
+    heap = None
 
     def __init__(self, name, rel, funs, calls=None, imports=(), regexes=(), consts=None):
         self.name, self.rel, self.funs = name, rel, list(funs)
@@ -254,6 +297,43 @@ class Module:
         self.imports = list(imports)
         self.regexes = list(regexes)      # (qualified name, expected pattern text): asserted, fail-closed
         self.consts = dict(consts or {})  # python name (module/class constant) -> (coq text, type)
+
+
+class HeapClass:
+    """HEAP MODE: a class whose instances are mutable objects with IDENTITY, referred to from several places.  A value of
+    type ("ref", "<class name>") is a reference (Coq type `coq`, e.g. "id") into the heap; None is `option` of it.
+      fields   {attribute: (type, getter, setter)} — the plain attributes (slots).  `x.attr` on a reference is
+               `getter <heap> x : result <type>` (a read through a dangling reference is the primitive's error),
+               `x.attr = v` is `setter <heap> x v : result <heap type>`; both are hand-written primitives of the spec,
+               defined from the model's own heap functions.
+      props    {attribute: (getter Call or None, setter Call or None)} — @property attributes: the read `x.attr` is the
+               call of the getter with the receiver as its only argument, the assignment `x.attr = v` the call of the
+               setter (a Call with `substate`, arguments receiver and value); both are translated functions.
+      eqb / opt_eqb   `a is b` on two references / when one side may be None (id equality).
+      alloc, init, new   `Cls(args…)`: `alloc <heap> : ref * heap` (the model's fresh allocation), then the translated
+               `__init__` (Coq name `init`, state = the heap alone, first parameter the new reference); the translator
+               emits this as the definition `new` right after `init` and checks that __init__ assigns every field at top
+               level (a slot that was never assigned would raise AttributeError on a read).  `Cls(..)` itself is rendered
+               through Module.calls (key "Cls" -> a Call with coq = `new` and substate = [the heap variable]).
+    A reference is truthy (the class must define neither __bool__ nor __len__: checked in the source)."""
+    def __init__(self, coq, fields, props=None, eqb=None, opt_eqb=None, alloc=None, init=None, new=None):
+        self.coq, self.fields, self.props = coq, dict(fields), dict(props or {})
+        self.eqb, self.opt_eqb, self.alloc, self.init, self.new = eqb, opt_eqb, alloc, init, new
+
+
+class Heap:
+    """HEAP MODE (Module.heap).  var: the name of the heap variable; a function that CHANGES objects lists it in its
+    state as ("<heap>", var, ty) — it is then threaded like method-mode state and returned on exceptions too; a function
+    that only READS objects takes it as a ghost parameter (and returns `result`: any write fails closed).  classes:
+    {class name: HeapClass}.  Everything else about the declared classes (inheritance, other attributes, __eq__, iteration
+    of an object, …) is rejected.
+    assume (optional): a primitive `option A -> result A` that is `Ok a` on `Some a` and `Err OutOfFuel` on None.  With it, an
+    Optional reference may be passed where a callee (Call.substate) takes a reference — flow typing that the translator
+    does not do, e.g. `self.remove_node(self.tail_node)` after `if self.tail_node is None: raise`.  None there is OUTSIDE
+    what is rendered faithfully (Python would hand None on): it ends in OutOfFuel, and the tie theorem, which has no such
+    case, has to prove that it never happens."""
+    def __init__(self, var, ty, classes, assume=None):
+        self.var, self.ty, self.classes, self.assume = var, ty, dict(classes), assume
 
 
 def cname(n):
@@ -266,6 +346,17 @@ def find_def(tree, qual):
     node = None
     for p in parts:
         node = None
+        if "@" in p:
+            # "name@getter" / "name@setter": the def of that name decorated with @property / @name.setter (exactly one)
+            nm, kind = p.split("@", 1)
+            deco = {"getter": "property", "setter": nm + ".setter"}.get(kind) or _bad("definition %s: @%s" % (qual, kind))
+            hits = [n for n in body if isinstance(n, ast.FunctionDef) and n.name == nm
+                    and [ast.unparse(d_) for d_ in n.decorator_list] == [deco]]
+            if len(hits) != 1:
+                _bad("definition %s: expected exactly one def %s decorated with @%s" % (qual, nm, deco))
+            node = hits[0]
+            body = node.body
+            continue
         for n in body:
             if isinstance(n, (ast.FunctionDef, ast.ClassDef)) and n.name == p:
                 node = n
@@ -348,12 +439,21 @@ class StM(str):
     through `wrap`, which fails closed on it."""
 
 
+class LetM(str):
+    """The bound term of a prelude entry that is a PURE value captured at this point of the evaluation order (HEAP MODE:
+    the value of a state attribute `self.attr`, which a call later in the same expression may change): rendered as a
+    `let` by wrap and swrap."""
+
+
 def wrap(pre, body):
     out = body
     for v, m in reversed(pre):
         if isinstance(m, StM):
             _bad("a call that changes the object's state inside an expression that is evaluated conditionally "
                  "(short-circuit, conditional expression) or outside method mode")
+        if isinstance(m, LetM):
+            out = "(let %s := %s in %s)" % (v, m, out)
+            continue
         out = "(do %s <- %s; %s)" % (v, m, out)
     return out
 
@@ -419,8 +519,210 @@ class FunTr:
                 out = "(match %s with MOk %s %s => let '%s := %s in %s | MErr %s %s => MErr %s %s end)" % (
                     m, v, stv, self.st_tuple(), stv, out, ev, stv, ev, stv)
                 continue
+            if isinstance(m, LetM):
+                out = "(let %s := %s in %s)" % (v, m, out)
+                continue
             out = "(match %s with Ok %s => %s | Err e__ => MErr e__ %s end)" % (m, v, out, self.st_tuple())
         return out
+
+    # HEAP MODE ----------------------------------------------------------------------------------------------------
+    def _heap(self):
+        """Module.heap if this function has the heap variable (as a state variable or as a ghost parameter), else None."""
+        hp = getattr(self.mod, "heap", None)
+        return hp if hp is not None and hp.var in self.decl else None
+
+    def _heap_rw(self):
+        """The heap is part of this function's state (it may change objects)."""
+        hp = self._heap()
+        return hp is not None and any(v == hp.var for _, v, _ in self.fun.state)
+
+    def _ref_class(self, t):
+        """The HeapClass of a reference type ("ref", C) / ("option", ("ref", C)) -> (HeapClass, is optional) or None."""
+        hp = self._heap()
+        opt = isinstance(t, tuple) and t[0] == "option"
+        if opt:
+            t = t[1]
+        if hp is not None and isinstance(t, tuple) and len(t) == 2 and t[0] == "ref" and t[1] in hp.classes:
+            return hp.classes[t[1]], opt
+        return None
+
+    def _ref_truthy_ok(self, t, node):
+        """An instance of the class is always truthy: the class defines neither __bool__ nor __len__ (and has no base
+        class that could), checked in the source now."""
+        cls = (t[1] if t[0] == "option" else t)[1]
+        cdefs = [n for n in self.mod.tree_.body if isinstance(n, ast.ClassDef) and n.name == cls]
+        if len(cdefs) != 1:
+            _bad("class %s: expected exactly one definition at module level" % cls, node)
+        for b in cdefs[0].bases:
+            if not (ast.unparse(b) == "object" or ast.unparse(b).startswith("Generic[")):
+                _bad("truth value of a %s: base class %s" % (cls, ast.unparse(b)), node)
+        for n in cdefs[0].body:
+            names = [n.name] if isinstance(n, (ast.FunctionDef, ast.ClassDef)) else \
+                [x.id for tg in getattr(n, "targets", []) for x in ast.walk(tg) if isinstance(x, ast.Name)]
+            if "__bool__" in names or "__len__" in names:
+                _bad("truth value of a %s: the class defines %s" % (cls, names), node)
+
+    def _sub_call(self, cand, texts, node):
+        """The prelude term (StM) of a call of a function that runs on PART of the caller's state (Call.substate)."""
+        sub = list(cand.substate)
+        mine = {v: t for _, v, t in self.fun.state}
+        if not self.method or self.fun.generator or any(v not in mine for v in sub):
+            _bad("%s runs on the state variables %r: the caller %s does not have them in its state" % (
+                cand.coq, sub, self.fun.qual), node)
+        fs = [f for f in self.mod.funs if f.coq == cand.coq]
+        if len(fs) > 1:
+            _bad("%s: several translated functions of that name" % cand.coq, node)
+        gh = []
+        if fs:
+            f = fs[0]
+            if [(v, t) for _, v, t in f.state] != [(v, mine[v]) for v in sub] or f.generator \
+                    or (f.ghost and f.ghost != self.fun.ghost) \
+                    or [t for _, t in f.params] != list(cand.args) or f.ret != cand.ret or f.rec_group:
+                _bad("the rendering of %s does not have the state/ghost/parameter/return types of %s" % (cand.coq, f.qual), node)
+            gh = [cname(g) for g, _ in f.ghost]       # the callee's ghost parameters are the caller's: handed on
+        app = " ".join([cand.coq] + gh + [cname(v) for v in sub] + texts)
+        if sub == [v for _, v, _ in self.fun.state]:
+            return StM(app)
+        r, st, e = self.tmp(), self.tmp(), self.tmp()
+        pat = "(" + ", ".join(cname(v) for v in sub) + ")"
+        return StM("(match %s with MOk %s %s => let '%s := %s in MOk %s %s | MErr %s %s => let '%s := %s in MErr %s %s end)" % (
+            app, r, st, pat, st, r, self.st_tuple(), e, st, pat, st, e, self.st_tuple()))
+
+    def _sub_call_expr(self, cand, arg_nodes, env, node, recv=None):
+        """E of a call rendered by a Call with `substate`: arguments left to right (after the receiver), then the call."""
+        n_expected = len(cand.args) - (1 if recv is not None else 0)
+        if len(arg_nodes) != n_expected or any(isinstance(a, ast.Starred) for a in arg_nodes):
+            _bad("%s expects %d positional arguments" % (cand.coq, n_expected), node)
+        es = ([recv] if recv is not None else []) + \
+            [self.expr(a, env, w) for a, w in zip(arg_nodes, cand.args[1 if recv is not None else 0:])]
+        hp = self._heap()
+        for i_, (e, w) in enumerate(zip(es, cand.args)):
+            rc = self._ref_class(e.ty)
+            if rc is not None and rc[1] and self._ref_class(w) is not None and not self._ref_class(w)[1] \
+                    and same_repr(e.ty[1], w) and hp.assume and not (recv is not None and i_ == 0):
+                # an Optional reference where the callee takes a reference: Heap.assume (None ends in OutOfFuel)
+                u = self.tmp()
+                es[i_] = E(e.pre + [(u, "%s %s" % (hp.assume, e.text))], u, w)
+        texts = [coerce(e.text, e.ty, w, node) for e, w in zip(es, cand.args)]
+        t = self.tmp()
+        return E(sum((e.pre for e in es), []) + [(t, self._sub_call(cand, texts, node))], t, cand.ret)
+
+    def _no_stm(self, pre, node, what):
+        if any(isinstance(m, StM) for _, m in pre):
+            _bad("a call that changes the object's state inside %s" % what, node)
+
+    def _fun_state_ok(self, fty, node):
+        if not self.method or self.fun.generator or [(v, t) for _, v, t in self.fun.state] != [tuple(x) for x in fty[3]]:
+            _bad("a callable value of type %r in %s, whose state is not the one the type names" % (fty, self.fun.qual), node)
+
+    def _fun_value(self, n, env, want):
+        """An expression where a CALLABLE VALUE of type ("fun", args, ret, state) is expected:
+          * `X.m` / `f` whose SOURCE TEXT is a key of the spec's calls rendered by a Call with `substate` (a bound method of
+            an object whose attributes are part of this function's state, a translated function): the function that runs
+            it on that part of the state.  (A bound method remembers the OBJECT, not a snapshot of it: the state it runs
+            on is the one at the time of the call.  That `X` denotes the same object then is the spec author's claim, made
+            by listing X's attributes as state.)
+          * `lambda x…: BODY`: BODY translated on the state at the time of the call.  It may read locals of the enclosing
+            function; a closure sees a variable, not its value, so each such local must be bound exactly once in the whole
+            function (parameters: never rebound) and the function must contain no loop (fail closed otherwise)."""
+        self._fun_state_ok(want, n)
+        sps = " ".join("(%s : %s)" % (cname(v), ty_coq(t)) for v, t in want[3])
+        key = ast.unparse(n)
+        c = self.mod.calls.get(key)
+        if isinstance(n, (ast.Attribute, ast.Name)) and isinstance(c, Call) and c.substate \
+                and list(c.args) == list(want[1]) and c.ret == want[2]:
+            ps = ["a%d__" % i for i in range(len(c.args))]
+            args = " ".join("(%s : %s)" % (p, ty_coq(t)) for p, t in zip(ps, c.args))
+            return E([], "(fun %s %s => %s)" % (sps, args, self._sub_call(c, ps, n)), want)
+        if isinstance(n, ast.Lambda):
+            la = n.args
+            if la.vararg or la.kwarg or la.kwonlyargs or la.posonlyargs or la.defaults or len(la.args) != len(want[1]):
+                _bad("lambda: exactly %d plain parameters" % len(want[1]), n)
+            if any(isinstance(m, (ast.For, ast.While, ast.ListComp, ast.GeneratorExp, ast.SetComp, ast.DictComp))
+                   for m in ast.walk(self.node)):
+                _bad("lambda in a function with a loop", n)
+            names = [x.arg for x in la.args]
+            if len(set(names)) != len(names) or any(x in self.decl for x in names):
+                _bad("lambda parameters %r clash with declared names" % names, n)
+            free = {m.id for m in ast.walk(n.body) if isinstance(m, ast.Name)} - set(names)
+            for x in sorted(free):
+                stores = [m for m in ast.walk(self.node) if isinstance(m, ast.Name) and m.id == x and not isinstance(m.ctx, ast.Load)]
+                if x in env and (len(stores) > 1 or (stores and x in [p for p, _ in self.fun.params])):
+                    _bad("the lambda reads %r, which is bound more than once in %s" % (x, self.fun.qual), n)
+            env2 = dict(env)
+            for v, t in want[3]:
+                env2[v] = t
+            for x, t in zip(names, want[1]):
+                env2[x] = t
+            e = self.expr(n.body, env2, want[2])
+            args = " ".join("(%s : %s)" % (cname(x), ty_coq(t)) for x, t in zip(names, want[1]))
+            body = self.swrap(e.pre, self.ok(coerce(e.text, e.ty, want[2], n)))
+            return E([], "(fun %s %s => %s)" % (sps, args, body), want)
+        _bad("a callable value: only a bound method / function that the spec renders with `substate`, or a lambda", n)
+
+    def _heap_attr_read(self, n, recv, env):
+        """`x.attr` (Load) on a reference-typed expression: a heap lookup / the call of a @property getter."""
+        hc, opt = self._ref_class(recv.ty)
+        hp = self._heap()
+        pre, rtext = list(recv.pre), recv.text
+        if opt:     # attribute access on None: AttributeError (rendered OtherError), before anything else
+            u = self.tmp()
+            pre.append((u, "tr_unwrap %s" % rtext))
+            rtext = u
+        if n.attr in hc.fields:
+            ty, getter, _ = hc.fields[n.attr]
+            t = self.tmp()
+            return E(pre + [(t, "%s %s %s" % (getter, cname(hp.var), rtext))], t, ty)
+        g = hc.props.get(n.attr, (None, None))[0]
+        if isinstance(g, Call) and len(g.args) == 1 and g.monadic and not g.mutates and not g.substate:
+            t = self.tmp()
+            return E(pre + [(t, "%s %s" % (g.coq, rtext))], t, g.ret)
+        _bad("attribute %s of a %r: neither a declared field nor a declared property" % (n.attr, recv.ty), n)
+
+    def _heap_attr_assign(self, s, t, env, nxt):
+        """`x.attr = e` on a reference-typed expression x.  Python evaluates e, then x, then stores."""
+        hp = self._heap()
+        saved = self.ntmp
+        try:
+            recv0 = self.expr(t.value, env)
+        except ExtractError:
+            recv0 = None
+        self.ntmp = saved
+        rc = self._ref_class(recv0.ty) if recv0 is not None else None
+        if rc is None:
+            return None
+        if not self._heap_rw():
+            _bad("%s: assignment to an attribute of an object in a function that takes the heap read-only" % ast.unparse(t), s)
+        hc, opt = rc
+        if t.attr in hc.fields:
+            fty, _, setter = hc.fields[t.attr]
+            v = self.expr(s.value, env, fty)
+            recv = self.expr(t.value, env)
+            pre, rtext = v.pre + recv.pre, recv.text
+            if opt:
+                u = self.tmp()
+                pre = pre + [(u, "tr_unwrap %s" % rtext)]
+                rtext = u
+            h2 = self.tmp()
+            pre = pre + [(h2, "%s %s %s %s" % (setter, cname(hp.var), rtext, coerce(v.text, v.ty, fty, s)))]
+            return self.swrap(pre, "(let %s := %s in %s)" % (cname(hp.var), h2, nxt(env)))
+        g = hc.props.get(t.attr, (None, None))[1]
+        if isinstance(g, Call) and g.substate and len(g.args) == 2 and g.ret == "unit":
+            v = self.expr(s.value, env, g.args[1])
+            recv = self.expr(t.value, env)
+            pre, rtext = v.pre + recv.pre, recv.text
+            if opt:
+                u = self.tmp()
+                pre = pre + [(u, "tr_unwrap %s" % rtext)]
+                rtext = u
+            r = self.tmp()
+            pre = pre + [(r, self._sub_call(g, [coerce(rtext, recv.ty[1] if opt else recv.ty, g.args[0], s),
+                                                coerce(v.text, v.ty, g.args[1], s)], s))]
+            env2 = dict(env)
+            for _, sv, st_ in self.fun.state:
+                env2[sv] = st_
+            return self.swrap(pre, nxt(env2))
+        _bad("assignment to attribute %s of a %r: neither a declared field nor a property with a setter" % (t.attr, recv0.ty), s)
 
     def _hidden_state(self):
         """Every state variable stands for something the translated code cannot name (its "source text" is not a
@@ -452,6 +754,10 @@ class FunTr:
             return "(negb (%s =? 0)%%Z)" % e.text
         if t in ("str", "strbuf") or (isinstance(t, tuple) and t[0] == "list"):
             return "(negb (tr_is_nil %s))" % e.text
+        if self._ref_class(t) is not None:
+            # HEAP MODE: a reference to an object of a class without __bool__/__len__ is truthy; None is falsy
+            self._ref_truthy_ok(t, node)
+            return "(tr_is_some %s)" % e.text if t[0] == "option" else "true"
         if isinstance(t, tuple) and t[0] == "option":
             inner = t[1]
             if inner in ("str", "strbuf", "Z", "bool", "char") or (isinstance(inner, tuple) and inner[0] in ("list", "iter", "option", "dict")):
@@ -566,6 +872,8 @@ class FunTr:
             if ast.unparse(n) != want[1]:
                 _bad("argument is `%s`; the spec asserts the literal source text `%s`" % (ast.unparse(n), want[1]), n)
             return E([], want[2], want)
+        if isinstance(want, tuple) and want[0] == "fun" and not (isinstance(n, ast.Name) and n.id in env):
+            return self._fun_value(n, env, want)
         if isinstance(n, ast.Constant):
             return self._const(n, want)
         if isinstance(n, ast.Name):
@@ -579,10 +887,26 @@ class FunTr:
             key = ast.unparse(n)
             if key in self.stattr:
                 v = self.stattr[key]
+                if self._heap_rw():
+                    # HEAP MODE: calls that change the state may stand later in the same expression (Call.substate): the
+                    # value the attribute has NOW is captured (LetM), so that textual order = evaluation order
+                    t = self.tmp()
+                    return E([(t, LetM(cname(v)))], t, env[v])
                 return E([], cname(v), env[v])
             if key in self.mod.consts:
                 t, ty = self.mod.consts[key]
                 return E([], t, ty)
+            if self._heap() is not None and isinstance(n.ctx, ast.Load):
+                # HEAP MODE: x.attr on a reference-typed expression
+                saved_tmp = self.ntmp
+                try:
+                    recv = self.expr(n.value, env)
+                except ExtractError:
+                    recv = None
+                    self.ntmp = saved_tmp
+                if recv is not None and self._ref_class(recv.ty) is not None:
+                    return self._heap_attr_read(n, recv, env)
+                self.ntmp = saved_tmp
             if self.mod.attr_hooks.get(key, (None, None))[0] and isinstance(n.ctx, ast.Load):
                 # an attribute served by __getattr__ (Module.attr_hooks): the read IS the call <getter>("<name>")
                 return self._call(self._hook_call(self.mod.attr_hooks[key][0], n, []), env, want)
@@ -883,6 +1207,21 @@ class FunTr:
             return E([], "(" + " && ".join(parts) + ")", "bool")
         op, rn = n.ops[0], n.comparators[0]
         if isinstance(op, (ast.Is, ast.IsNot)):
+            if not (isinstance(rn, ast.Constant) and rn.value is None) and self._heap() is not None:
+                # HEAP MODE: `a is b` on two references (either may be None) is identity of the objects: id equality
+                a = self.expr(n.left, env)
+                b = self.expr(rn, env)
+                ra, rb = self._ref_class(a.ty), self._ref_class(b.ty)
+                if ra is None or rb is None or ra[0] is not rb[0]:
+                    _bad("`is` on %r and %r: only between references to objects of one declared class" % (a.ty, b.ty), n)
+                hc = ra[0]
+                if ra[1] or rb[1]:
+                    oty = a.ty if ra[1] else b.ty
+                    txt = "(%s %s %s)" % (hc.opt_eqb or _bad("no opt_eqb for the class", n),
+                                          coerce(a.text, a.ty, oty, n), coerce(b.text, b.ty, oty, n))
+                else:
+                    txt = "(%s %s %s)" % (hc.eqb or _bad("no eqb for the class", n), a.text, b.text)
+                return E(a.pre + b.pre, "(negb %s)" % txt if isinstance(op, ast.IsNot) else txt, "bool")
             if not (isinstance(rn, ast.Constant) and rn.value is None):
                 _bad("`is` only against None", n)
             a = self.expr(n.left, env)
@@ -903,6 +1242,14 @@ class FunTr:
                 else:
                     _bad("membership of %r in a tuple" % (a.ty,), n)
             else:
+                g_in = self.mod.calls.get("in " + ast.unparse(rn))
+                if isinstance(g_in, Call) and len(g_in.args) == 1 and g_in.monadic and not g_in.mutates \
+                        and not g_in.substate and g_in.ret == "bool":
+                    # `k in X` where the spec renders the SOURCE TEXT "in X" (e.g. "in self"): the call
+                    # type(X).__contains__(X, k) of a translated read-only method / a primitive that may raise
+                    t = self.tmp()
+                    return E(a.pre + [(t, "%s %s" % (g_in.coq, coerce(a.text, a.ty, g_in.args[0], n)))],
+                             "(negb %s)" % t if neg else t, "bool")
                 b = self.pure(rn, env)
                 if a.ty == "char" and b.ty in ("str", "strbuf"):
                     txt = "(tr_char_in %s %s)" % (a.text, b.text)
@@ -945,6 +1292,12 @@ class FunTr:
                 # an Optional[str] against a str: None is equal to no str.  (Not for the variable x of an enclosing
                 # `x is None or …` / `x is not None and …`: there x is narrowed, see cond.)
                 txt = "(tr_opt_str_eqb %s %s)" % (a.text, b.text)
+            elif isinstance(ta, tuple) and ta[0] == "coq" and ta == tb \
+                    and isinstance(self.mod.calls.get("<%s>.__eq__" % ta[1]), Call) \
+                    and self._pure_contains(self.mod.calls["<%s>.__eq__" % ta[1]]):
+                # a == b on two values of one opaque type whose class defines __eq__ (and, consistently, __ne__): the spec's
+                # primitive "<type>.__eq__" (pure, two arguments, a bool)
+                txt = "(%s %s %s)" % (self.mod.calls["<%s>.__eq__" % ta[1]].coq, a.text, b.text)
             else:
                 _bad("== on %r and %r" % (ta, tb), n)
             return E(pre, "(negb %s)" % txt if isinstance(op, ast.NotEq) else txt, "bool")
@@ -973,6 +1326,11 @@ class FunTr:
         # `m` / `not m` is exactly `m is not None` / `m is None` (truthy: tr_is_some); m has its inner type where true
         if self.fun.narrow and isinstance(v, ast.Name) and v.id in env and self._opaque_opt(env[v.id]):
             return v.id, neg
+        # HEAP MODE: truth value of an optional REFERENCE held in a variable (the class has no __bool__/__len__: an object
+        # is truthy): exactly `x is not None` / `x is None`; x is a reference where the test is true
+        if isinstance(v, ast.Name) and v.id in env and (self._ref_class(env[v.id]) or (None, False))[1]:
+            self._ref_truthy_ok(env[v.id], test)
+            return v.id, neg
         return None
 
     @staticmethod
@@ -983,7 +1341,8 @@ class FunTr:
         """The scrutinee of the None/Some match that renders a narrowing test (_narrow): the variable itself for
         `x is [not] None`; for the truth value of an optional str/list, tr_opt_truthy x (None for None AND for the
         empty value, as in Python)."""
-        if isinstance(test, ast.Compare) or (self.fun.narrow and self._opaque_opt(self.decl.get(name))):
+        if isinstance(test, ast.Compare) or (self.fun.narrow and self._opaque_opt(self.decl.get(name))) \
+                or self._ref_class(self.decl.get(name)) is not None:
             return cname(name)
         return "(tr_opt_truthy %s)" % cname(name)
 
@@ -1139,6 +1498,15 @@ class FunTr:
 
     def _call(self, n, env, want):
         key = ast.unparse(n.func)
+        if isinstance(n.func, ast.Name) and n.func.id in env and isinstance(env[n.func.id], tuple) and env[n.func.id][0] == "fun":
+            # a call of a CALLABLE VALUE held in a variable (type ("fun", …)): it runs on the whole state of this function
+            fty = env[n.func.id]
+            self._fun_state_ok(fty, n)
+            if n.keywords:
+                _bad("keyword arguments of a callable value", n)
+            c = Call(cname(n.func.id), list(fty[1]), fty[2])
+            c.substate = [v for v, _ in fty[3]]
+            return self._sub_call_expr(c, list(n.args), env, n)
         if n.keywords and key not in self.mod.calls and not isinstance(n.func, ast.Attribute):
             _bad("keyword arguments", n)     # (a method call on a typed receiver: see _kw_slots_method below)
         if key in self.mod.calls:
@@ -1156,6 +1524,11 @@ class FunTr:
                                + [cname(v_) for _, v_, _ in self.fun.state] + texts)
                 t = self.tmp()
                 return E(sum((e.pre for e in es), []) + [(t, StM(app))], t, c.ret)
+            if len(alts) == 1 and alts[0].substate:
+                # a function that runs on part of the caller's state (Call.substate), e.g. the heap: HEAP MODE
+                if n.keywords:
+                    _bad("keyword arguments of %s" % key, n)
+                return self._sub_call_expr(alts[0], list(n.args), env, n)
             if any(getattr(a_, "selfmethod", None) or getattr(a_, "stateprim", False) for a_ in alts):
                 _bad("a call of a method of the same object (%s) is only supported as a statement "
                      "`x = self.m(..)` / `self.m(..)`" % key, n)
@@ -1199,10 +1572,17 @@ class FunTr:
                 recv = E(recv.pre + [(t, "tr_unwrap %s" % recv.text)], t, recv.ty[1])
             if recv is not None:
                 tname = recv.ty if isinstance(recv.ty, str) else (recv.ty[1] if recv.ty[0] == "coq" else recv.ty[0])
+                if self._ref_class(recv.ty) is not None:
+                    tname = recv.ty[1]      # HEAP MODE: a method of a declared object class, key "<Class>.method"
                 mkey = "<%s>.%s" % (tname, n.func.attr)
                 if mkey in self.mod.calls:
                     alts = self.mod.calls[mkey]
                     alts = alts if isinstance(alts, (list, tuple)) else [alts]
+                    if len(alts) == 1 and alts[0].substate:
+                        # a translated method that runs on part of the caller's state (Call.substate), e.g. the heap
+                        if n.keywords:
+                            _bad("keyword arguments of %s" % mkey, n)
+                        return self._sub_call_expr(alts[0], list(n.args), env, n, recv=recv)
                     errs = []
                     for cand in alts:
                         m_args = list(n.args)
@@ -1295,6 +1675,18 @@ class FunTr:
                 out.append(x)
         for s in stmts:
             for n in ast.walk(s):
+                if self._heap_rw():
+                    # HEAP MODE (conservative): any call may run on the state (Call.substate), any store to an attribute
+                    # that is not a state attribute changes the heap
+                    if isinstance(n, ast.Call):
+                        for _, v_, _ in self.fun.state:
+                            add(v_)
+                    if isinstance(n, ast.Attribute) and not isinstance(n.ctx, ast.Load) and ast.unparse(n) not in self.stattr:
+                        add(self._heap().var)
+                if isinstance(n, ast.Delete):
+                    for t in n.targets:     # del self.attr[k] on a state attribute (an opaque object) changes it
+                        if isinstance(t, ast.Subscript) and isinstance(t.value, ast.Attribute) and ast.unparse(t.value) in self.stattr:
+                            add(self.stattr[ast.unparse(t.value)])
                 if isinstance(n, (ast.Assign, ast.AugAssign, ast.For)):
                     tgts = n.targets if isinstance(n, ast.Assign) else [n.target]
                     for t in tgts:
@@ -1500,6 +1892,28 @@ class FunTr:
             return nxt(env)
         if isinstance(s, ast.Pass):
             return nxt(env)
+        if isinstance(s, ast.Delete) and len(s.targets) == 1 and isinstance(s.targets[0], ast.Subscript) \
+                and not isinstance(s.targets[0].slice, ast.Slice) and isinstance(s.targets[0].value, ast.Attribute) \
+                and ast.unparse(s.targets[0].value) in self.stattr \
+                and (self.decl.get(self.stattr[ast.unparse(s.targets[0].value)]) or ("",))[0] == "coq":
+            # del self.attr[k] on a state attribute holding an OPAQUE object (METHOD MODE): the spec's receiver-mutating
+            # primitive "<type>.__delitem__" : obj -> k -> (unit * obj') [result of it: KeyError].  Python evaluates
+            # self.attr, then k, then calls __delitem__.
+            var = self.stattr[ast.unparse(s.targets[0].value)]
+            oty = self.decl[var]
+            cand = self.mod.calls.get("<%s>.__delitem__" % oty[1])
+            if not (isinstance(cand, Call) and cand.mutates and len(cand.args) == 2 and cand.ret == "unit"):
+                _bad("del %s[..] needs a mutating \"<%s>.__delitem__\" of two arguments returning unit" % (var, oty[1]), s)
+            kx = self.expr(s.targets[0].slice, env, cand.args[1])
+            if self._heap_rw():
+                self._no_stm(kx.pre, s, "the key of a del statement")
+            app = "%s %s %s" % (cand.coq, coerce(cname(var), oty, cand.args[0], s), coerce(kx.text, kx.ty, cand.args[1], s))
+            rv, rr = self.tmp(), self.tmp()
+            body = "let %s := %s in %s" % (cname(var), coerce(rr, cand.args[0], oty, s), nxt(env))
+            if cand.monadic:
+                pr = self.tmp()
+                return self.swrap(kx.pre + [(pr, app)], "(let '(%s, %s) := %s in %s)" % (rv, rr, pr, body))
+            return self.swrap(kx.pre, "(let '(%s, %s) := %s in %s)" % (rv, rr, app, body))
         if isinstance(s, ast.Delete):
             # `del x` of a local that is defined here: the name is undefined from here on (a later use fails closed)
             env2 = dict(env)
@@ -1528,6 +1942,10 @@ class FunTr:
                 _bad("return with a value in a function translated with result_var", s)
             e = self.expr(s.value, env, self.rty)
             return self.swrap(e.pre, self.ok(coerce(e.text, e.ty, self.rty, s)))
+        if isinstance(s, ast.Raise) and s.exc is None and s.cause is None and ctx.get("reraise"):
+            # bare `raise` in the body of an `except` handler (FunTr._try): the exception being handled, on the state
+            # reached now
+            return self.err(ctx["reraise"])
         if isinstance(s, ast.Raise):
             exc = s.exc
             nm = exc.func if isinstance(exc, ast.Call) else exc
@@ -1579,6 +1997,11 @@ class FunTr:
                 t = ast.copy_location(ast.Subscript(
                     value=ast.copy_location(ast.Name(id=self.stattr[ast.unparse(t.value)], ctx=ast.Load()), t.value),
                     slice=t.slice, ctx=ast.Store()), t)
+            if isinstance(t, ast.Attribute) and self._heap() is not None:
+                # HEAP MODE: x.attr = e on a reference-typed expression x
+                r_ = self._heap_attr_assign(s, t, env, nxt)
+                if r_ is not None:
+                    return r_
             sc = self._selfcall(s.value)
             if sc is not None:
                 if not isinstance(t, ast.Name):
@@ -1674,6 +2097,8 @@ class FunTr:
                              % (oty, oty[1]), s)
                     v = self.expr(s.value, env, cand.args[2])
                     kx = self.expr(t.slice, env, cand.args[1])
+                    if self._heap_rw():     # (obj is read AFTER the value, but BEFORE the key is evaluated; rendered last)
+                        self._no_stm(kx.pre, s, "the key of an item assignment")
                     app = "%s %s %s %s" % (cand.coq, coerce(cname(obj), oty, cand.args[0], s),
                                            coerce(kx.text, kx.ty, cand.args[1], s), coerce(v.text, v.ty, cand.args[2], s))
                     rv, rr = self.tmp(), self.tmp()
@@ -1725,6 +2150,9 @@ class FunTr:
             ast.copy_location(fake, s)
             ast.fix_missing_locations(fake)
             e = self.expr(fake, env)
+            if self._heap_rw():
+                # (the target is read BEFORE the right-hand side is evaluated, but rendered after its prelude)
+                self._no_stm(e.pre, s, "the right-hand side of an augmented assignment")
             pfx, env2 = self.bind(s.target.id, e, env, s)
             return self.swrap(e.pre, "(" + pfx + nxt(env2) + ")")
         if isinstance(s, ast.Expr) and isinstance(s.value, ast.Yield):
@@ -1732,6 +2160,33 @@ class FunTr:
                 _bad("yield", s)
             e = self.expr(s.value.value, env, self.fun.ret)
             return self.swrap(e.pre, "(let out__ := out__ ++ [%s] in %s)" % (coerce(e.text, e.ty, self.fun.ret, s), nxt(env)))
+        if isinstance(s, ast.Expr) and isinstance(s.value, ast.YieldFrom):
+            # `yield from X` in a generator that is rendered as the list of what it yields: X (a list: another generator
+            # rendered that way, or a generator expression — consumed completely, here) is appended.  As for `yield`,
+            # the consumer is taken to exhaust the generator; an exception inside X comes out of this statement.
+            if not self.fun.generator:
+                _bad("yield from", s)
+            x = s.value.value
+            if isinstance(x, ast.GeneratorExp):
+                x = ast.copy_location(ast.ListComp(elt=x.elt, generators=x.generators), x)
+            e = self.expr(x, env, ("list", self.fun.ret))
+            if not (isinstance(e.ty, tuple) and e.ty[0] in ("list", "iter") and same_repr(e.ty[1], self.fun.ret)):
+                _bad("yield from a value of type %r in a generator of %r" % (e.ty, self.fun.ret), s)
+            return self.swrap(e.pre, "(let out__ := out__ ++ %s in %s)" % (e.text, nxt(env)))
+        if isinstance(s, ast.Expr) and isinstance(s.value, ast.Call) and self._heap_rw():
+            # HEAP MODE: a call of a function that runs on (part of) the state, as a statement; its value is dropped
+            saved_tmp = self.ntmp
+            try:
+                e = self.expr(s.value, env)
+            except ExtractError as ex:
+                e = None
+                self._heap_stmt_err = " (as a call on the state: %s)" % ex
+            if e is not None and e.pre and isinstance(e.pre[-1][1], StM) and e.pre[-1][0] == e.text:
+                env2 = dict(env)
+                for _, v_, t_ in self.fun.state:
+                    env2[v_] = t_
+                return self.swrap(e.pre, nxt(env2))
+            self.ntmp = saved_tmp
         if isinstance(s, ast.Expr) and isinstance(s.value, ast.Call):
             sc = self._selfcall(s.value)
             if sc is not None:
@@ -1752,7 +2207,7 @@ class FunTr:
             if meth == "write" and len(args) == 1 and oty == "strbuf":
                 e = self.expr(args[0], env, "str")
                 return self.swrap(e.pre, "(let %s := %s ++ %s in %s)" % (cname(obj), cname(obj), coerce(e.text, e.ty, "str", s), nxt(env)))
-            _bad("statement %s" % ast.unparse(s), s)
+            _bad("statement %s" % ast.unparse(s) + getattr(self, "_heap_stmt_err", ""), s)
         if isinstance(s, ast.If):
             return self._if(s, rest, env, k, ctx)
         if isinstance(s, ast.While):
@@ -1771,7 +2226,7 @@ class FunTr:
                     ast.copy_location(m, s)
             ast.fix_missing_locations(des)
             return self.block([des] + list(rest), env, k, ctx)
-        _bad("statement %s" % type(s).__name__, s)
+        _bad("statement %s" % type(s).__name__ + getattr(self, "_heap_stmt_err", ""), s)
 
     # kinds (Lib/Base.err) that `except <class>` certainly catches / may or may not catch.  A kind stands for several
     # classes (harness.core.err_kind: the first class of the MRO that has a kind): FormatError covers
@@ -1780,7 +2235,11 @@ class FunTr:
     # handler ends the translated function with OutOfFuel ("outside what is rendered faithfully"): the tie theorem
     # has no such case, so it has to prove that this never happens.
     CATCHES = {"ValueError": (("ValueError",), ("FormatError", "IOError")), "TypeError": (("TypeError",), ()),
-               "KeyError": (("KeyError",), ()), "IndexError": (("IndexError",), ())}
+               "KeyError": (("KeyError",), ()), "IndexError": (("IndexError",), ()),
+               # every kind stands for subclasses of Exception only (OtherError: AttributeError, EOFError, …) — except
+               # OutOfFuel, which is no Python exception at all and is never caught
+               "Exception": (("ValueError", "KeyError", "TypeError", "IndexError", "ParseError", "DebError", "IOError",
+                              "FormatError", "AssertionError", "NotImplementedError", "StopIteration", "OtherError"), ())}
 
     def _try(self, s, rest, env, k, ctx):
         """try: B  except (E1, E2): H   in METHOD MODE.  B runs on the current state; it may raise.  On an exception the
@@ -1802,6 +2261,20 @@ class FunTr:
                     _bad("%s inside a try body" % type(m).__name__, m)
         stvars = [v for _, v, _ in self.fun.state]
         loc = [v for v in self.assigned(s.body) if v not in stvars]
+        if self._heap_rw():
+            # (HEAP MODE) `assigned` counts every name that occurs in a target, also the k of `self.attr[k] = v`; names
+            # that are only READ there are not rebound: stores, in-place changes of a named list, subscript stores
+            # into a named container
+            real = set()
+            for b in s.body:
+                for m in ast.walk(b):
+                    if isinstance(m, ast.Name) and not isinstance(m.ctx, ast.Load):
+                        real.add(m.id)
+                    if isinstance(m, ast.Subscript) and not isinstance(m.ctx, ast.Load) and isinstance(m.value, ast.Name):
+                        real.add(m.value.id)
+                    if isinstance(m, ast.Call) and isinstance(m.func, ast.Attribute) and isinstance(m.func.value, ast.Name):
+                        real.add(m.func.value.id)
+            loc = [v for v in loc if v in real]
         if loc:
             _bad("the try body (re)binds local variables %r: their values at the raise point would be lost" % loc, s)
         arms, seen = [], set()
@@ -1832,7 +2305,7 @@ class FunTr:
         cases = ""
         for h, sure, maybe in arms:
             if sure:
-                cases += "| %s => %s " % (" | ".join(sure), self.block(h.body, env_st, kk, ctx))
+                cases += "| %s => %s " % (" | ".join(sure), self.block(h.body, env_st, kk, dict(ctx, reraise=ev)))
             if maybe:
                 cases += "| %s => %s " % (" | ".join(maybe), self.err("OutOfFuel"))
         return "(%smatch %s with MOk _ %s => let '%s := %s in %s | MErr %s %s => let '%s := %s in (match %s with %s| _ => %s end) end)" % (
@@ -2131,6 +2604,8 @@ class FunTr:
         texts = [coerce(rtext, rty, cand.args[0], node)] + \
                 [coerce(e.text, e.ty, w, node) for e, w in zip(es, cand.args[1:])]
         pre = pre + sum((e.pre for e in es), [])
+        if self._heap_rw():     # (the receiver is read BEFORE the arguments are evaluated, but rendered after their prelude)
+            self._no_stm(pre, node, "the arguments of a receiver-mutating call")
         app = "%s %s" % (cand.coq, " ".join(texts))
         rv, rr = self.tmp(), self.tmp()
         env2 = dict(env)
@@ -2335,6 +2810,22 @@ class FunTr:
         ctx2 = dict(ctx)
         ctx2["cont"] = lambda e: "%s fuel%s %s" % (name, kxrec, args(e))
         ctx2["brk"] = kcall
+        nar = self._narrow(s.test, env_in) if self._heap() is not None else None
+        if nar is not None and self._ref_class(env_in[nar[0]]) is not None:
+            # HEAP MODE: `while x:` / `while x is not None:` on an optional reference held in a variable: x is a reference
+            # in the body (on the back-edge it is what the body has assigned, at its declared type)
+            name_, none_first = nar
+            if none_first:
+                _bad("while on `not x` / `x is None` for a reference", s)
+            env_some = dict(env_in)
+            env_some[name_] = env_in[name_][1]
+            body = self.block(s.body, env_some, ctx2["cont"], ctx2)
+            text = ("Fixpoint %s (fuel : nat)%s %s {struct fuel} : %s :=\n  match fuel with\n  | O => %s\n"
+                    "  | S fuel =>\n    %s(match %s with None => %s | Some %s => %s end)\n  end.\n" % (
+                        name, kxpar, params, self.rtype(), self.err("OutOfFuel"), kpfx,
+                        self._narrow_scrut(s.test, name_), kcall(env_in), cname(name_), body))
+            self.defs.append(text)
+            return "(%s (%s)%s %s)" % (name, self.fun.fuel[idx], kxval(), args(env))
         c = self.cond(s.test, env_in)
         body = self.block(s.body, env_in, ctx2["cont"], ctx2)
         text = ("Fixpoint %s (fuel : nat)%s %s {struct fuel} : %s :=\n  match fuel with\n  | O => %s\n"
@@ -2575,7 +3066,11 @@ class FunTr:
     # ------------------------------------------------------------------
     def translate(self):
         a = self.node.args
-        if a.kwonlyargs or a.posonlyargs or ((a.vararg or a.kwarg) and not self._forwards_only()):
+        # keyword-only parameters: accepted when each has a default and is a declared LOCAL of the spec (never a spec
+        # parameter): the translation is the function called WITHOUT them — they are bound to their defaults below
+        kwonly_ok = bool(a.kwonlyargs) and all(d_ is not None for d_ in a.kw_defaults) \
+            and all(x.arg in self.fun.locals for x in a.kwonlyargs)
+        if (a.kwonlyargs and not kwonly_ok) or a.posonlyargs or ((a.vararg or a.kwarg) and not self._forwards_only()):
             _bad("unsupported parameter kinds in %s" % self.fun.qual, self.node)
         # aliasing: `x = y` between mutable lists of which one is later mutated in place cannot be rendered by values
         mutated = set()
@@ -2616,6 +3111,9 @@ class FunTr:
             _bad("parameters of %s are %r, the spec says %r" % (self.fun.qual, names, spec_names), self.node)
         extra = names[len(spec_names):]
         defaults = dict(zip([x.arg for x in a.args][len(a.args) - len(a.defaults):], a.defaults))
+        if kwonly_ok:
+            extra = extra + [x.arg for x in a.kwonlyargs]
+            defaults.update({x.arg: d_ for x, d_ in zip(a.kwonlyargs, a.kw_defaults)})
         env = {p: t for p, t in self.fun.ghost}
         env.update({p: t for p, t in self.fun.params})
         env.update({v: t for _, v, t in self.fun.state})
@@ -2674,8 +3172,9 @@ def translate_module(repo, mod):
         out.append("(* %s = re.compile(%s%s) — modelled by a hand-written leaf, compared with the live pattern on every run *)\n"
                    % (qual, re.sub(r"\*\)", "* )", repr(got)), (", " + flags) if flags else ""))
     out.append("\n")
-    global _COERCIONS
+    global _COERCIONS, _HEAP
     _COERCIONS = list(mod.coercions)
+    _HEAP = getattr(mod, "heap", None)
     try:
         grp = []        # clauses of the mutual Fixpoint being collected (Fun.rec_group)
         for i, fun in enumerate(mod.funs):
@@ -2695,6 +3194,41 @@ def translate_module(repo, mod):
             out.append("(* %s *)\n" % fun.qual)
             out.append(tr.translate())
             out.append("\n")
+            if _HEAP is not None:
+                out.append(_heap_constructor(mod, fun, node))
     finally:
         _COERCIONS = []
+        _HEAP = None
     return "".join(out)
+
+
+def _heap_constructor(mod, fun, node):
+    """HEAP MODE: after the translated `Cls.__init__` of a declared class (HeapClass.init), the definition `HeapClass.new`
+    of `Cls(args…)`: allocate (HeapClass.alloc), run __init__ on the new reference, return the reference.  Checked: __init__
+    runs on the heap alone, takes the reference first and returns None; it assigns every declared field by a top-level
+    statement `self.<field> = …` (so no slot can be read before it was assigned)."""
+    hp = mod.heap
+    hits = [(c, hc) for c, hc in hp.classes.items() if hc.init == fun.coq and fun.qual == c + ".__init__"]
+    if not hits:
+        return ""
+    cls, hc = hits[0]
+    if not (hc.new and hc.alloc):
+        _bad("class %s: init without new/alloc" % cls)
+    if [(v, t) for _, v, t in fun.state] != [(hp.var, hp.ty)] or fun.ghost or fun.generator or fun.ret != "unit" \
+            or not fun.params or fun.params[0][1] != ("ref", cls) or fun.skip_first:
+        _bad("%s: __init__ of a heap class must run on the heap alone, take the new reference first and return None" % fun.qual)
+    slf = fun.params[0][0]
+    top = {ast.unparse(s.targets[0]) for s in node.body if isinstance(s, ast.Assign) and len(s.targets) == 1}
+    missing = [f for f in hc.fields if "%s.%s" % (slf, f) not in top]
+    if missing:
+        _bad("%s does not assign the fields %r at top level" % (fun.qual, missing))
+    rest = fun.params[1:]
+    ps = " ".join("(%s : %s)" % (cname(p), ty_coq(t)) for p, t in rest)
+    args = " ".join(cname(p) for p, _ in rest)
+    h = cname(hp.var)
+    return ("(* %s(…): the fresh allocation, then __init__ *)\n"
+            "Definition %s (%s : %s) %s : mres %s (%s)%%type :=\n"
+            "  let '(%s, %s) := %s %s in\n"
+            "  match %s %s %s %s with\n  | MOk _ st__ => MOk %s st__\n  | MErr e__ st__ => MErr e__ st__\n  end.\n\n" % (
+                cls, hc.new, h, ty_coq(hp.ty), ps, hc.coq, ty_coq(hp.ty),
+                cname(slf), h, hc.alloc, h, hc.init, h, cname(slf), args, cname(slf)))
